@@ -116,7 +116,8 @@ fn build_history(e: &mut Ent) -> History {
     let mut image: Vec<(u32, Vec<u8>)> = vec![];
     for v in 1..64u32 {
         let h = hbase + 0x10 * v;
-        let top = if e.chance(1, 2) { 0 } else { e.u8() };
+        let t = e.u32();
+        let top = if t & 0x100 == 0 { 0 } else { t as u8 };
         image.push((4 * v, vec![top, (h >> 16) as u8, (h >> 8) as u8, h as u8]));
     }
     let n = 1 + e.below(40) as usize;
@@ -300,6 +301,7 @@ pub fn run(ctx: &Ctx) -> i32 {
         random_cases: tier.pick(400_000, 20_000_000),
         build_random: &|e| build(e, &Force::default()),
         classify: &|c, j, t: &Tag, s| classify(c, j, t, s),
+        all_quirks: false,
     }
     .run();
     stats.exhaustive_subspaces.insert("TRAPA #1-3 x 256 CCR".into(), 3 * 256);
@@ -309,10 +311,13 @@ pub fn run(ctx: &Ctx) -> i32 {
     let nshards = 32usize;
     let hstats = par_shards(ctx, nshards, |shard| {
         let w = Worker::new(ctx);
-        let ent = entropy();
+        let ent = entropy_n(640);
         let _ = run_prop(mix(ctx.seed, 0x0602_0000 + shard as u64), nh / nshards as u32, &ent, |raw, shrinking| {
             let h = build_history(&mut Ent::new(raw));
             let r = run_history(&mut w.emu.borrow_mut(), &h);
+            if std::env::var("H8DBG").is_ok() {
+                eprintln!("{:?} -> {:?}", h.ops, r);
+            }
             let mut st = w.stats.borrow_mut();
             match r {
                 Ok((entries, depth)) => {
@@ -352,3 +357,4 @@ pub fn run(ctx: &Ctx) -> i32 {
     extra.insert("masked_details".into(), json!(["UI after entry (the property allows it to change)"]));
     finish(ctx, P, stats, rule, vec!["reference model transcribed from the H8/300H programming manual (DESIGN Appendix A.5)".into()], extra)
 }
+
